@@ -87,6 +87,8 @@ def number(draw, bits):
 
 @st.composite
 def spelling(draw, v):
+    if v >= 0 and draw(st.booleans()):
+        return str(v)     # plain decimal: the exact reference of judge() applies
     s = str(abs(v))
     s = "0" * draw(st.integers(0, 3)) + s
     signs = draw(st.sampled_from(["", "", "+", "++", "--", "+-+-"]))
@@ -142,6 +144,9 @@ FIELD = {"ABT_MAX_NUM_XSTREAMS": "max_xstreams", "ABT_KEY_TABLE_SIZE": "key_tabl
          "ABT_MEM_PAGE_SIZE": "mem_page_size", "ABT_MEM_STACK_PAGE_SIZE": "mem_sp_size",
          "ABT_MEM_MAX_NUM_STACKS": "mem_max_stacks", "ABT_MEM_MAX_NUM_DESCS": "mem_max_descs",
          "ABT_HUGE_PAGE_SIZE": "huge_page_size", "ABT_SYS_PAGE_SIZE": "sys_page_size"}
+EXACT = {"ABT_SCHED_SLEEP_NSEC": (0, (2 ** 64 - 1) // 2), "ABT_SCHED_EVENT_FREQ": (1, (2 ** 32 - 1) // 2),
+         "ABT_MUTEX_MAX_HANDOVERS": (1, (2 ** 32 - 1) // 2), "ABT_MUTEX_MAX_WAKEUPS": (1, (2 ** 32 - 1) // 2),
+         "ABT_MAX_NUM_XSTREAMS": (1, (2 ** 31 - 1) // 2)}
 POW2 = {"key_table_size", "sys_page_size"}
 CACHELINE = {"thread_stacksize", "sched_stacksize"}
 
@@ -173,6 +178,21 @@ def judge(text, res, ctx):
             return "%s: %d -> %d but %d -> %d (not monotone)" % (var, a, va, b, vb)
         if a >= b and va < vb:
             return "%s: %d -> %d but %d -> %d (not monotone)" % (var, a, va, b, vb)
+    # exact reference for the settings that are stored without rounding: a plain decimal
+    # string parses exactly, saturates at the type's maximum and is clamped to the
+    # documented range [lo, TYPE_MAX/2]
+    if var in EXACT:
+        lo, hi = EXACT[var]
+        for tag, val in (("A", a), ("B", b if b != "junk" else None)):
+            if val is None:
+                continue
+            sp = re.search(r"env %s %s=(.*)" % (tag, var), text).group(1)
+            if re.fullmatch(r"\d+", sp) is None:
+                continue
+            exp = max(lo, min(hi, val))
+            got = runs[tag][f]
+            if got != exp:
+                return "%s=%s gives %d, the documented parse/clamp gives %d" % (var, sp, got, exp)
     if f in POW2 and va & (va - 1):
         return "%s=%d gives %d, not a power of two" % (var, a, va)
     if f in CACHELINE and va % 64:
